@@ -32,6 +32,26 @@ def nextCall (s : Shared) (b : Nat) : Option Call :=
 /-- What handle `d` of party `b` refers to. -/
 def objAt (s : Shared) (b : Nat) (d : Handle) : Option Obj := (s.parties[b]?).map fun p => p.handles.getD d .closed
 
+theorem handlesDirPath_set_dir (hs : List Obj) (d : Handle) (p : Bytes) (sn sn' : Option (List Bytes)) (pos pos' : Nat)
+    (h : hs.getD d .closed = .dir p sn pos) (x : Handle) :
+    handlesDirPath (hs.set d (.dir p sn' pos')) x = handlesDirPath hs x := by
+  unfold handlesDirPath
+  by_cases hx : x = d
+  · subst hx
+    have hlt : x < hs.length := by
+      by_cases hl : x < hs.length
+      · exact hl
+      · simp [List.getD_eq_getElem?_getD, List.getElem?_eq_none (Nat.le_of_not_lt hl)] at h
+    rw [h]
+    simp [List.getD_eq_getElem?_getD, List.getElem?_set, hlt]
+  · have : ¬ d = x := fun e => hx e.symm
+    simp [List.getD_eq_getElem?_getD, List.getElem?_set, this]
+
+theorem inFlight_withSnap (pb : PState) (d : Handle) (p : Bytes) (names : List Bytes)
+    (h : pb.handles.getD d .closed = .dir p none 0) : (withSnap pb d p names).inFlight = pb.inFlight := by
+  unfold PState.inFlight withSnap
+  simp only [handlesDirPath_set_dir pb.handles d p none (some names) 0 0 h]
+
 theorem readdir_snapshot (s : Shared) (b : Nat) (d : Handle) (p : Bytes) (es : List (Bytes × Nat))
     (h1 : nextCall s b = some (.readdir d)) (h2 : objAt s b d = some (.dir p none 0)) (h3 : s.fs.dir p = some es) :
     stepParty s b = stepParty (setSnap s b d p (sortedNames es)) b := by
@@ -97,7 +117,8 @@ theorem readdir_snapshot (s : Shared) (b : Nat) (d : Handle) (p : Bytes) (es : L
             if_true]
           simp [World.setObj, Shared.view, withParty, withSnap, List.set_set]
       unfold stepCall
-      simp only [hview, stepLocal, stepEvent, hpred, callSrc, callDst]
+      simp only [hview, stepLocal, stepEvent, hpred, callSrc, callDst, inFlight_withSnap pb d p _ hobj]
       simp [withParty, withSnap, Shared.view, List.set_set, World.lookupE]
+      rfl
 
 end Mdsort.Proofs.Parties
